@@ -16,6 +16,15 @@ CHECKS = {
             "on any path, every exit keeps tracing on, no mutating operation on host values. Decides the "
             "containment/trace-retention clauses for all programs and inputs at once; does not decide side "
             "effects of user expressions.", "4/C01"),
+    "C03": ("decision-table extraction over the comparison atoms of the two at_location implementations, origin expansion of the location tuple, loop-shape and dominance rules",
+            "Static decision of the matching tables for every abstract world (every event kind, file/line/name equal or "
+            "not), of the origin of the values matched (the callback's own frame) and of the loop shape (all triggers "
+            "visited, all actions of exactly the matching ones, each action isolated, process under can_trigger, same-location merge).", "4/C03"),
+    "C04": ("decision tables of can_trigger/in_window, unit/origin rules, typestate of record_triggered, reader/writer key agreement, critical-section rule",
+            "Static decision of the limit tables including the exact period boundary and the -1 sentinel, of the "
+            "timestamp/unit wiring, of `record iff processed`, of int fallback, of key agreement between LocationAction "
+            "and every builder, and of the presence of a critical section around check+record (the static stand-in for "
+            "all interleavings). Two genuine defects are listed as known findings.", "4/C04"),
     "C09": ("who-may-call / thread-role reachability over the resolved call graph, exactly-once path-shape rules, escape analysis of flush, lock discipline",
             "Static rules deciding, for every schedule and fault placement, the structural clauses: conversion and "
             "sending are unreachable from the application thread, each hand-over is submitted exactly once on every "
